@@ -43,6 +43,10 @@ CLAIMED["C01"] = ("mirsym over check_stmt_requires_semicolon (all statement vari
     "bounded symbolic model checking of four named output-breaking mechanisms only (the property as a whole - parser x printer - is NOT claimed): `;` before `(`, `--` from nested minus, `[ [[`, line comment followed by a newline",
     "trusts rustc's MIR printer, mirsym, the parser contract that Prefix::Expression holds a parenthesised expression, z3; keys nested deeper than 3 wrappers and all other ways to produce invalid output are outside", "5/C01")
 
+CLAIMED["C11"] = ("mirsym over get_quote_to_use (symbolic literal), format_function_args (recursion inlined, symbolic option/argument/next-suffix), create_function_*_trivia and their call sites; z3 against the README option table; option replay",
+    "bounded symbolic model checking of the decision kernels: quote choice for every literal of <=4 characters x 4 styles; call form for every call_parentheses value x argument shape x obscurity; spaces(1) exactly for the option values that name it",
+    "trusts rustc's MIR printer, mirsym, z3; 'every layout path of every construct' beyond these kernels is outside", "5/C11")
+
 NOT_YET = {}
 
 NA = {
